@@ -1,6 +1,7 @@
 import XvcPipeData.SchemaLemmas
 import XvcPipeData.SchemaReach
 import XvcPipeData.ReaderLemmas
+import XvcPipeData.ExportFile
 /-!
   # C14 — Pipeline export and import are inverse
 
@@ -563,6 +564,86 @@ example : [Sym.ch 'a', Sym.ch CR] ≠ [] ∧ Sym.ch LF ∉ [Sym.ch 'a', Sym.ch C
 
 end Reader
 
+/-! ## The file written by `export --file`
+
+  `C14_roundtrip` and the reader theorems speak about the *document* (the string the encoder produced)
+  and about how `import` reads a file; what connects them for `export --file p` followed by
+  `import --file p` is that the file **is** the document, whatever `p` held before. -/
+
+namespace ExportFile
+
+variable {α σ : Type}
+
+/-- **The export file is a function of the pipeline alone.**  After `fs::write(path, export_output)`
+    the file holds exactly the document — for every previous state of the path (absent, empty, shorter,
+    equally long, longer, any content). -/
+theorem C14_export_file_is_the_document (old : Option (List α)) (doc : List α) :
+    openWrite fsWrite old doc = some doc ∧ writeFile old doc = doc := by
+  cases old <;> simp [writeFile, openWrite, fsWrite, overwrite]
+
+/-- … hence two exports of the same document to paths with different histories give the same file. -/
+theorem C14_export_file_independent_of_old (old₁ old₂ : Option (List α)) (doc : List α) :
+    writeFile old₁ doc = writeFile old₂ doc := by
+  rw [(C14_export_file_is_the_document old₁ doc).2, (C14_export_file_is_the_document old₂ doc).2]
+
+/-- `export --file p` then `import --file p`: the parser receives exactly the document
+    (`writeFile` composed with `C14_reader_file_verbatim`); with `C14_roundtrip` on the parsed value
+    this is the file-channel round trip. -/
+theorem C14_export_file_then_import_file (old : Option (List Char)) (doc : List Char) :
+    Reader.readFile (Reader.embed (writeFile old doc)) = some doc := by
+  rw [(C14_export_file_is_the_document old doc).2]
+  exact Reader.C14_reader_file_verbatim doc
+
+/-- Exactly when truncation matters: over an existing file the result is the document iff the file is
+    truncated or was not longer than the document. -/
+theorem C14_export_file_iff_truncate (o : OpenOpts) (c doc : List α) :
+    openWrite o (some c) doc = some doc ↔ (o.truncate = true ∨ c.length ≤ doc.length) := by
+  cases ht : o.truncate
+  · simp only [openWrite, overwrite, ht, Bool.false_eq_true, if_false, Option.some.injEq, false_or]
+    constructor
+    · intro h
+      have h2 : (doc ++ List.drop doc.length c).length = doc.length := by rw [h]
+      simp only [List.length_append, List.length_drop] at h2
+      omega
+    · intro h
+      rw [List.drop_eq_nil_of_le h, List.append_nil]
+  · simp [openWrite, overwrite, ht]
+
+/-- NOT the code (seeded change C14-4): without `truncate(true)`, exporting a document that is a prefix
+    of what the file holds — the same pipeline after its last step was removed, in serde_yaml's layout
+    `header ++ one block per step` — leaves the file byte-identical to the OLD export: it still
+    describes the removed step, and `import` (by `C14_import_export` on the old schema) recreates it. -/
+theorem C14_export_file_no_truncate_keeps_removed_step (header : List α) (encStep : σ → List α)
+    (steps : List σ) (t : σ) :
+    openWrite noTruncate (some (encSteps header encStep (steps ++ [t]))) (encSteps header encStep steps)
+      = some (encSteps header encStep (steps ++ [t])) := by
+  simp [openWrite, noTruncate, overwrite, encSteps, List.flatMap_append, ← List.append_assoc]
+
+/-- … a concrete witness: the file holds `"s:\n- a\n- b\n"`, the new document is `"s:\n- a\n"`; without
+    truncation the file is unchanged (≠ the document), with `fs::write` it is the document. -/
+theorem C14_export_file_no_truncate_counterexample :
+    openWrite noTruncate (some ['s', ':', '\n', '-', ' ', 'a', '\n', '-', ' ', 'b', '\n']) ['s', ':', '\n', '-', ' ', 'a', '\n']
+      = some ['s', ':', '\n', '-', ' ', 'a', '\n', '-', ' ', 'b', '\n'] ∧
+    openWrite noTruncate (some ['s', ':', '\n', '-', ' ', 'a', '\n', '-', ' ', 'b', '\n']) ['s', ':', '\n', '-', ' ', 'a', '\n']
+      ≠ some ['s', ':', '\n', '-', ' ', 'a', '\n'] ∧
+    writeFile (some ['s', ':', '\n', '-', ' ', 'a', '\n', '-', ' ', 'b', '\n']) ['s', ':', '\n', '-', ' ', 'a', '\n']
+      = ['s', ':', '\n', '-', ' ', 'a', '\n'] := by decide
+
+/-- JSON shape of the same defect: a leftover tail after the closing brace (`{}` over `{"a":1}` gives
+    `{}a":1}`), which no JSON parser accepts ("trailing characters"). -/
+theorem C14_export_file_no_truncate_json_counterexample :
+    openWrite noTruncate (some ['{', '"', 'a', '"', ':', '1', '}']) ['{', '}'] = some ['{', '}', 'a', '"', ':', '1', '}'] := by
+  decide
+
+/-- non-vacuity of `C14_export_file_iff_truncate`: a longer old file and both option sets -/
+example : ([1, 2, 3] : List Nat).length > [7].length ∧ fsWrite.truncate = true ∧ noTruncate.truncate = false ∧
+    openWrite fsWrite (some [1, 2, 3]) [7] = some [7] ∧ openWrite noTruncate (some [1, 2, 3]) [7] = some [7, 2, 3] := by decide
+
+/-- nothing at the path: created with the document (both option sets have `create`) -/
+example : openWrite fsWrite (none : Option (List Nat)) [7] = some [7] ∧ writeFile (none : Option (List Nat)) [7] = [7] := by decide
+
+end ExportFile
+
 /-! ## Axiom audit -/
 
 #print axioms C14_export_deterministic
@@ -591,5 +672,12 @@ end Reader
 #print axioms Reader.C14_reader_stdin_crcrlf_counterexample
 #print axioms Reader.C14_reader_stdin_final_newline_counterexample
 #print axioms Reader.C14_reader_stdin_unreadable_counterexample
+#print axioms ExportFile.C14_export_file_is_the_document
+#print axioms ExportFile.C14_export_file_independent_of_old
+#print axioms ExportFile.C14_export_file_then_import_file
+#print axioms ExportFile.C14_export_file_iff_truncate
+#print axioms ExportFile.C14_export_file_no_truncate_keeps_removed_step
+#print axioms ExportFile.C14_export_file_no_truncate_counterexample
+#print axioms ExportFile.C14_export_file_no_truncate_json_counterexample
 
 end PipeData
